@@ -21,8 +21,8 @@ struct LockstepExec {
   int seg_mode_mask = 0;
   std::map<int, int> m_set;      // last applied value per request (calibration covariates, CVBR preconditions)
   int mset(int req, int dflt) const { auto it = m_set.find(req); return it == m_set.end() ? dflt : it->second; }
-  void settings_changed() { cvbr_close(); ms_prev_size = -1; seg_bits = 0; seg_secs = 0; seg_frames = 0; seg_mode_mask = 0; seg_warm = 0; }
-  double seg_warm = 0;
+  void settings_changed() { cvbr_close(); ms_prev_size = -1; seg_bits = 0; seg_secs = 0; seg_frames = 0; seg_mode_mask = 0; seg_warm = 0; seg_tonal_secs = 0; }
+  double seg_warm = 0, seg_tonal_secs = 0;
   // constrained VBR: long-term mean rate over a constant-settings segment (>= 5 s after 1 s warm-up)
   void cvbr_close() {
     if (!check_rate || seg_secs < 5.0 || !S.enc.alive()) return;
@@ -34,8 +34,8 @@ struct LockstepExec {
     long milli = (long)(ratio * 1000);
     std::string k = std::string("max:cvbr_ratio_milli_") + fam + "_" + bucket;
     if (run.stat[k] < milli) run.stat[k] = milli;
-    if (getenv("OPSIM_CALIB")) fprintf(stderr, "CVBRSEG %s ratio=%.4f bitrate=%d fs=%d ch=%d frames=%ld secs=%.2f bytes_per_frame=%.1f mask=%d app=%d src=%d amp=%lld cplx=%d force=%d sig=%d fec=%d loss=%d bw=%d maxbw=%d fch=%d\n", fam, ratio, m_bitrate, S.enc.L.fs, S.enc.L.ch, seg_frames, seg_secs, bpf,
-        seg_mode_mask, S.enc.L.app, S.src.fam, (long long)S.src.amp, mset(OPUS_SET_COMPLEXITY_REQUEST, -1), mset(11002, -1), mset(OPUS_SET_SIGNAL_REQUEST, -1), mset(OPUS_SET_INBAND_FEC_REQUEST, -1), mset(OPUS_SET_PACKET_LOSS_PERC_REQUEST, -1), mset(OPUS_SET_BANDWIDTH_REQUEST, -1), mset(OPUS_SET_MAX_BANDWIDTH_REQUEST, -1), mset(OPUS_SET_FORCE_CHANNELS_REQUEST, -1));
+    if (getenv("OPSIM_CALIB")) fprintf(stderr, "CVBRSEG %s ratio=%.4f bitrate=%d fs=%d ch=%d frames=%ld secs=%.2f bytes_per_frame=%.1f mask=%d tonal=%.2f app=%d src=%d amp=%lld cplx=%d force=%d sig=%d fec=%d loss=%d bw=%d maxbw=%d fch=%d\n", fam, ratio, m_bitrate, S.enc.L.fs, S.enc.L.ch, seg_frames, seg_secs, bpf,
+        seg_mode_mask, seg_tonal_secs / seg_secs, S.enc.L.app, S.src.fam, (long long)S.src.amp, mset(OPUS_SET_COMPLEXITY_REQUEST, -1), mset(11002, -1), mset(OPUS_SET_SIGNAL_REQUEST, -1), mset(OPUS_SET_INBAND_FEC_REQUEST, -1), mset(OPUS_SET_PACKET_LOSS_PERC_REQUEST, -1), mset(OPUS_SET_BANDWIDTH_REQUEST, -1), mset(OPUS_SET_MAX_BANDWIDTH_REQUEST, -1), mset(OPUS_SET_FORCE_CHANNELS_REQUEST, -1));
     double tol = cvbr_tolerance(fam, bpf);
     run.count("cvbr_checked");
     if (ratio > 1.0 + tol)
@@ -155,7 +155,12 @@ struct LockstepExec {
       if (L.kind == K_SINGLE && m_vbr && m_cvbr && m_bitrate > 0 && max_bytes >= 1276) {
         double dur = (double)expect / L.fs;
         if (seg_warm < 1.0) seg_warm += dur;
-        else { seg_bits += 8.0 * ret; seg_secs += dur; seg_frames++; seg_mode_mask |= 1 << mode; }
+        else {
+          seg_bits += 8.0 * ret; seg_secs += dur; seg_frames++; seg_mode_mask |= 1 << mode;
+          // steady tonal / periodic material: SILK's open-loop rate estimate is at its worst there
+          int f = S.src.fam; bool plain = f == SRC_SILENCE || f == SRC_VOICED || f == SRC_NOISE || f == SRC_CLICKS || f == SRC_BURSTYSTEREO;
+          if (!plain) seg_tonal_secs += dur;
+        }
       } else if (seg_secs > 0 || seg_warm > 0) settings_changed();
     }
     S.pos += expect; S.t48 += (int64_t)expect * 48000 / L.fs;
